@@ -214,10 +214,13 @@ fn parse_field(base_data_size: usize, field: &Field) -> Result<FieldDefinition> 
                                     "bitfield!: bit requires an inclusive range, for examples bits(10..=19). bit(10) allows specifying a single bit",
                                 ));
                             }
-                            ranges.push(Range {
-                                start: lower,
-                                end: upper + 1,
-                            });
+                            let Some(end) = upper.checked_add(1) else {
+                                return Err(Error::new_spanned(
+                                    &range_span,
+                                    "bitfield!: Invalid bit-range: the upper limit is too large",
+                                ));
+                            };
+                            ranges.push(Range { start: lower, end });
                         }
                         ArgumentParser::RangeGotLowerLimit(lower) => {
                             if is_range && !is_in_array {
@@ -226,10 +229,13 @@ fn parse_field(base_data_size: usize, field: &Field) -> Result<FieldDefinition> 
                                     "bitfield!: bits requires a single bit, for examples bit(10). bits(10..=12) can be used to specify multiple bits",
                                 ));
                             }
-                            ranges.push(Range {
-                                start: lower,
-                                end: lower + 1,
-                            });
+                            let Some(end) = lower.checked_add(1) else {
+                                return Err(Error::new_spanned(
+                                    &range_span,
+                                    "bitfield!: Invalid bit index: the value is too large",
+                                ));
+                            };
+                            ranges.push(Range { start: lower, end });
                         }
                         ArgumentParser::ReadWrite => {
                             provide_getter = true;
@@ -378,8 +384,12 @@ fn parse_field(base_data_size: usize, field: &Field) -> Result<FieldDefinition> 
         }
 
         let highest_bit_index_in_ranges = ranges.iter().map(|range| range.end).max().unwrap_or(0);
-        let number_of_bits_indexed =
-            (indexed_count - 1) * indexed_stride.unwrap() + highest_bit_index_in_ranges;
+        // Checked arithmetic: huge strides must be rejected, not wrap around (proc macros may be built without overflow checks)
+        let number_of_bits_indexed = indexed_count
+            .saturating_sub(1)
+            .checked_mul(indexed_stride.unwrap())
+            .and_then(|bits| bits.checked_add(highest_bit_index_in_ranges))
+            .unwrap_or(usize::MAX);
         if number_of_bits_indexed > base_data_size {
             return Err(Error::new_spanned(
                 field.attrs.first(),
